@@ -404,3 +404,21 @@ ADDENDA10 = {
 }
 for _k, _v in ADDENDA10.items():
     CLAIMS[_k]["text"] = CLAIMS[_k]["text"].rstrip() + " " + _v
+
+ADDENDA11 = {
+    "C01": "Round 12: shares IDENT-DEDUP (rows of values); variables quantified inside the condition of for_all are not free.",
+    "C02": "Round 12: shares LIVE-ITER.",
+    "C03": "Round 12: a collection a generator clears after a yield is also cleared when an evaluation starts.",
+    "C06": "Round 12: the name of an association table is made from the whole table and field names.",
+    "C07": "Round 12: a path join inside a disjunction is an outer join.",
+    "C10": "Round 12: results are not kept in a local collection and handed on later.",
+    "C11": "Round 12: IDENT-DEDUP reaches the domain mappings and the elements they unnest.",
+    "C12": "Round 12: shares COND-FOLD.",
+    "C13": "Round 12: add_node files the wrapper in the list the per-class table holds.",
+    "C14": "Round 12: no module-level memo keyed by a node index or an id().",
+    "C16": "Round 12: emptying a managed container does not depend on looking its elements up.",
+    "C17": "Round 12: a class is looked up in the diagram by the class object, never by its name.",
+    "C19": "Round 12: no caller of from_json inside the library swallows the documented errors; getattr on a module can raise ImportError.",
+}
+for _k, _v in ADDENDA11.items():
+    CLAIMS[_k]["text"] = CLAIMS[_k]["text"].rstrip() + " " + _v
